@@ -31,7 +31,9 @@ pub fn run(args: &Args) {
 /// Real seconds per spec time unit.
 const H: u64 = 3;
 const THREADS: usize = 8;
-const ROUNDS: usize = 4;
+const ROUNDS: usize = 6;
+/// Behaviours with a one-second window that share one schedule (the rest waits for the next round).
+const TIGHT_PER_ROUND: usize = 900;
 
 fn now_secs() -> u64 {
     SystemTime::now().duration_since(UNIX_EPOCH).expect("clock before epoch").as_secs()
@@ -240,6 +242,9 @@ struct Plan {
     phases: Vec<Vec<Op>>,
     /// spec clock of each phase
     nows: Vec<i64>,
+    /// some lifetime bound equals some clock reading of the behaviour: the calls of a phase must
+    /// then happen inside the one real second that IS that reading (strict comparisons are exact)
+    tight: bool,
 }
 
 fn plan(ops: &[Op], start: i64) -> Plan {
@@ -253,7 +258,11 @@ fn plan(ops: &[Op], start: i64) -> Plan {
             phases.last_mut().unwrap().push(op.clone());
         }
     }
-    Plan { phases, nows }
+    let tight = ops.iter().any(|op| match op {
+        Op::AddOneTime(_, d) | Op::AddLongTerm(_, d) => nows.contains(&d.nb) || nows.contains(&d.na),
+        _ => false,
+    });
+    Plan { phases, nows, tight }
 }
 
 /// Runs all plans on one shared real-time schedule. `results[i]` = per phase the calls' outcomes
@@ -274,8 +283,12 @@ fn run_schedule(keys: &Keys, plans: &[Plan], start: i64, out: &mut Outcome) -> V
             std::thread::sleep(Duration::from_millis(2));
         }
         let clock = Clock { base: now_secs(), start };
-        let max_phases = todo.iter().map(|i| plans[*i].phases.len()).max().unwrap();
-        let chunks: Vec<Vec<usize>> = (0..THREADS).map(|t| todo.iter().cloned().skip(t).step_by(THREADS).collect()).collect();
+        // tight behaviours first (their window is the first second of a phase), a bounded number per round
+        let mut now_round: Vec<usize> = todo.iter().cloned().filter(|i| plans[*i].tight).take(TIGHT_PER_ROUND).collect();
+        let postponed: Vec<usize> = todo.iter().cloned().filter(|i| plans[*i].tight).skip(TIGHT_PER_ROUND).collect();
+        now_round.extend(todo.iter().cloned().filter(|i| !plans[*i].tight));
+        let max_phases = now_round.iter().map(|i| plans[*i].phases.len()).max().unwrap();
+        let chunks: Vec<Vec<usize>> = (0..THREADS).map(|t| now_round.iter().cloned().skip(t).step_by(THREADS).collect()).collect();
         let done: Vec<Vec<(usize, Option<Vec<Vec<Result<Seen, String>>>>)>> = std::thread::scope(|scope| {
             let handles: Vec<_> = chunks
                 .iter()
@@ -290,7 +303,7 @@ fn run_schedule(keys: &Keys, plans: &[Plan], start: i64, out: &mut Outcome) -> V
                                     continue;
                                 }
                                 let lo = clock.real(p.nows[phase]);
-                                let hi = clock.real(p.nows[phase] + 1); // exclusive
+                                let hi = if p.tight { lo + 1 } else { clock.real(p.nows[phase] + 1) }; // exclusive
                                 while now_secs() < lo {
                                     std::thread::sleep(Duration::from_millis(5));
                                 }
@@ -311,7 +324,7 @@ fn run_schedule(keys: &Keys, plans: &[Plan], start: i64, out: &mut Outcome) -> V
                 .collect();
             handles.into_iter().map(|h| h.join().expect("schedule thread")).collect()
         });
-        todo.clear();
+        todo = postponed;
         for (i, r) in done.into_iter().flatten() {
             match r {
                 Some(log) => results[i] = Some(log),
@@ -486,12 +499,13 @@ fn record(args: &Args) {
     let mut trace = TraceWriter::create(args.out.as_ref().expect("--out"));
     let mut out = Outcome::new(
         args,
-        "seeded random call sequences (2 members, <= 8 adds, gets, remove_expired, <= 3 clock ticks = real sleeps) on the real KeyRegistry with \
+        "seeded random call sequences (2 members, <= 8 adds, gets, remove_expired, <= 2 (thorough 3) clock ticks = real sleeps) on the real KeyRegistry with \
          real signed bundles whose lifetimes start / end before, between and after the ticks; one event per call with the bundle handed out; \
          distinct by (run, call)",
     );
     // odd bounds around the even clock values 10, 12, 14, 16
     let bounds: Vec<i64> = vec![1, 7, 9, 9, 11, 11, 13, 13, 15, 17, 19, 1001];
+    let max_ticks = if args.thorough() { 3 } else { 2 };
     let mut all_ops = Vec::new();
     let mut max_adds = 0;
     for _ in 0..n {
@@ -502,6 +516,14 @@ fn record(args: &Args) {
             let m = rng.below(2) as usize;
             let d = Desc { nb: *rng.pick(&bounds[..9]), na: *rng.pick(&bounds[2..]), sig: !rng.chance(1, 6) };
             let d = if rng.chance(2, 3) { Desc { nb: 9, ..d } } else { d };
+            // now and then a bound that IS a clock reading of the run (10, 12, 14): strictness of the comparisons
+            let d = match rng.below(24) {
+                0 => Desc { nb: 10, ..d },
+                1 => Desc { na: 12, ..d },
+                2 => Desc { nb: 9, na: 14, ..d },
+                3 => Desc { nb: 12, na: 17, ..d },
+                _ => d,
+            };
             match rng.below(10) {
                 0..=2 if adds < 8 => {
                     adds += 1;
@@ -514,7 +536,7 @@ fn record(args: &Args) {
                 5 | 6 => ops.push(Op::GetOneTime(m)),
                 7 => ops.push(Op::GetLongTerm(m)),
                 8 => ops.push(Op::RemoveExpired),
-                _ if ticks < 3 => {
+                _ if ticks < max_ticks => {
                     ticks += 1;
                     ops.push(Op::Tick(2));
                 }
